@@ -416,10 +416,17 @@ def run(prog, tier, extra=None):
                     foreign_edges |= bs["false"]
     loop_cmp = gate.compare_edges(tv, ch, lambda a, b_: has_field(a, "Slip", "public_key") and has_field(a, "Transaction", "from")
                                   and has_field(b_, "Slip", "public_key") and has_field(b_, "Transaction", "from"))
-    for sb in loop_cmp["sites"]:
-        if tv.innermost_loop_containing([sb]) is not None:
-            owner_sites.add(sb)
-            foreign_edges |= {e_ for e_ in loop_cmp["ne"] if e_[0] == sb}
+    # explicit loop: `for slip in self.from.iter() { if slip.amount == 0 || slip.public_key == sender { continue } .. return false }`.
+    # The key compared against may be a local copy of from[0].public_key; the must-pass site is the loop header (an empty input
+    # list - refused earlier - would otherwise "bypass" the comparison)
+    loop_cmp2 = gate.compare_edges(tv, ch, lambda a, b_: has_field(a, "Slip", "public_key") and has_field(b_, "Slip", "public_key")
+                                   and (has_field(a, "Transaction", "from") or has_field(b_, "Transaction", "from")))
+    for lc_ in (loop_cmp, loop_cmp2):
+        for sb in lc_["sites"]:
+            h10 = tv.innermost_loop_containing([sb])
+            if h10 is not None:
+                owner_sites.add(h10)
+                foreign_edges |= {e_ for e_ in lc_["ne"] if e_[0] == sb}
     res.instance(R10)
     if not owner_sites:
         res.add(Finding(R10, "C01.input-owner|no-test", "Transaction::validate verifies the signature against from[0].public_key but never compares the other inputs' public_key with it: "
